@@ -89,7 +89,7 @@ func (s personStrategy) FillEntity(e *Person, b *boltz.TypedBucket) {
 
 func (s personStrategy) PersistEntity(e *Person, ctx *boltz.PersistContext) {
 	e.SetBaseValues(ctx)
-	ctx.SetString(FName, e.Name)
+	ctx.SetRequiredString(FName, e.Name) // (the usual way to write a name field)
 	ctx.SetStringP(FNick, e.Nick)
 	ctx.SetStringList(FRoles, e.Roles)
 	ctx.SetStringP(FBoss, e.Boss)
@@ -331,6 +331,9 @@ func New(cfg Config) *Stores {
 		panic(fmt.Sprintf("bad teamMode %q", cfg.TeamMode))
 	}
 	people.AddConstraint(boltz.NewSystemEntityEnforcementConstraint(people))
+	// symbols computed by the application (not stored): the first id in id order / the id once more
+	people.AddEntitySymbol(boltz.NewBoolFuncSymbol(people, "isFirst", func(id string) bool { return id == "p1" }))
+	people.AddEntitySymbol(boltz.NewStringFuncSymbol(people, "idAgain", func(id string) *string { return &id }))
 
 	people.SymTeams = people.AddFkSetSymbol(FTeams, teams)
 	people.SymSvc = people.AddFkSetSymbol(FSvc, teams)
